@@ -145,7 +145,7 @@ class Run:
         a = [proc.binary, '--mode', g['mode'], '--seed', str(seed), '--start', str(start), '--rounds', str(rounds),
              '--summary', summary, '--witness', witness, '--hashes', hashes, '--strategy', g.get('strategy', 'mix'),
              '--config', g['variant'], '--property', self.prop, '--tier', self.tier,
-             '--watchdog', str(g.get('watchdog', 120))]
+             '--watchdog', str(g.get('watchdog', 30 if g['mode'] == 'B' else 90))]
         for k, v in g.get('params', {}).items():
             a += ['--param', '%s=%s' % (k, v)]
         return a
@@ -210,10 +210,21 @@ class Run:
                         key = '%s:hang:%s:%s' % (self.prop, proc.group['scen'], hang_owner(w) if callable(hang_owner) else 'hang')
                         self.handle_event(proc, key, {self.prop}, 'the operation did not return (watchdog fired twice): %s' % key, w)
                         return
+                    if proc.group['mode'] == 'B' and w.get('threads') and fail_round is not None and getattr(proc, 'hang_round', None) == fail_round:
+                        # Mode B is deterministic: the same round hung twice with the same seed => a thread is stuck inside a
+                        # call without reaching any scheduling point (livelock inside the library)
+                        w['oracle'] = 'watchdog'
+                        sig = '+'.join(sorted({'%s.%s' % (t.get('op', ''), t.get('at', '')) for t in w['threads'] if t.get('state') not in ('DONE', 'IDLE')}))
+                        key = '%s:hang:%s:%s' % (self.prop, proc.group['scen'], re.sub(r'[^A-Za-z0-9_.+-]', '_', sig))
+                        owners = self.owners(proc.group, w)
+                        if not self.handle_event(proc, key, owners, 'no round completed within the watchdog period, twice at round %s with the same seed (Mode B): %s' % (fail_round, sig), w):
+                            self.stop = True
+                        return
                     with self.lock:
                         self.harness_errors.append('%s: inconclusive twice' % proc.tag)
                     return
-                if proc.group.get('rerun_same_seed'):
+                proc.hang_round = fail_round
+                if proc.group.get('rerun_same_seed') or proc.group['mode'] == 'B':
                     continue
                 seed = seed + 7919
                 continue
@@ -361,7 +372,10 @@ def finish(run, level, rule, assumptions=(), floor=None):
             for e in run.harness_errors[:10]:
                 log('HARNESS: ' + e)
             rc = 2
-        elif d['coverage']['evaluations'] > 0 and run.excluded * 2 > d['coverage']['evaluations'] + run.excluded:
+        elif d['coverage']['evaluations'] == 0:
+            log('HARNESS: no execution completed')
+            rc = 2
+        elif run.excluded * 2 > d['coverage']['evaluations'] + run.excluded:
             log('HARNESS: more than half of the executions were excluded')
             rc = 2
         elif floor:
